@@ -25,7 +25,12 @@ def replay_file(pid, path):
     dfs = {}
     for name, rows in (d.get("inputs") or {}).items():
         st = [s for s in t["structs"] if s["name"] == name][0]
-        cols = {c["name"]: pd.Series([r.get(c["name"]) for r in rows], dtype=object) for c in st["DataStructure"]}
+        def cell(c, v):
+            if c["type"] == "Date" and isinstance(v, int):
+                import datetime
+                return (datetime.date(1970, 1, 1) + datetime.timedelta(days=v)).isoformat()
+            return v
+        cols = {c["name"]: pd.Series([cell(c, r.get(c["name"])) for r in rows], dtype=object) for c in st["DataStructure"]}
         dfs[name] = pd.DataFrame(cols)
     structs = R.structures(*[s for s in t["structs"] if s["name"] in dfs], scalars=t.get("scalars"))
     print("script:", d.get("script"))
